@@ -6,7 +6,7 @@ from pv.entail import entails
 from pv.expr import Ctx, guard_facts, key_contains
 from pv.facts import AnalysisBroken, strip_targs
 from pv.formula import Formula, exp_args
-from pv.loops import enclosing_loops, loop_shape
+from pv.loops import covers, enclosing_loops, is_element, loop_shape, sum_over
 from checks import lehmann as lh
 from checks.lehmann import fld, THIS
 
@@ -80,8 +80,12 @@ def body(chk, db, cfgname):
             good = len(acc) == 1 and len(zero) == 1 and rets and full_index_loop(f, ctx, acc[0], wsize) is not None
             if good:
                 n2 = f.nodes[acc[0]]
-                rk = ctx.key(n2["r"] if n2["k"] == "bin" else n2["args"][1], inline=False)
-                good = rk == ("op", "()", W, s_) and not enclosing_loops(f, zero[0]) and f.cfg.dominates(f.cfg.pos1(A), f.cfg.pos1(acc[0]))
+                rnode = n2["r"] if n2["k"] == "bin" else n2["args"][1]
+                rk = ctx.key(rnode, inline=False)
+                reads_stored = rk == ("op", "()", W, s_) and f.cfg.dominates(f.cfg.pos1(A), f.cfg.pos1(acc[0]))
+                # ... or adds the very value that is stored (a local holding the weight, or the same expression)
+                same_value = F.equal(F.conv(ctx.key(rnode)), got) and enclosing_loops(f, acc[0])[:1] == enclosing_loops(f, A)[:1]
+                good = (reads_stored or same_value) and not enclosing_loops(f, zero[0])
             if good:
                 r1.ok(site, f.loc(acc[0]), "Z_part = 0; Z_part += weights(s) in the same loop; returned", cfgname)
             else:
@@ -97,16 +101,32 @@ def body(chk, db, cfgname):
         ph1 = ph2 = None
         norm_calls = [jj for jj, nn in g.walk(g.body) if nn["k"] == "call" and strip_targs(nn.get("cname") or "") == DMP + "::normalize"]
         cu_calls = [jj for jj, nn in g.walk(g.body) if nn["k"] == "call" and strip_targs(nn.get("cname") or "") == DMP + "::computeUnnormalized"]
+        partial = None
         for j, shp in loops:
-            if shp["kind"] == "iter" and shp["bound"] == fld(DM + "::parts") and not shp["exits"]:
-                for jj, nn in g.walk(shp["body"]):
-                    if nn["k"] == "call" and strip_targs(nn.get("cname") or "") == DMP + "::computeUnnormalized":
+            inside = [(jj, strip_targs(nn.get("cname") or "")) for jj, nn in g.walk(shp["body"]) if nn["k"] == "call" and strip_targs(nn.get("cname") or "") in (DMP + "::computeUnnormalized", DMP + "::normalize")]
+            if not inside:
+                continue
+            if covers(shp, fld(DM + "::parts")):
+                for jj, cn_ in inside:
+                    obj = gctx.key(g.nodes[jj]["obj"]) if g.nodes[jj].get("obj") is not None else None
+                    if obj is None or not is_element(obj, shp, fld(DM + "::parts")):
+                        partial = "%s is not called on the part visited by the loop (%s)" % (cn_.split("::")[-1], g.s(jj)[:60])
+                    if cn_.endswith("computeUnnormalized"):
                         ph1 = (j, shp, jj)
-                    if nn["k"] == "call" and strip_targs(nn.get("cname") or "") == DMP + "::normalize":
+                    else:
                         ph2 = (j, shp, jj)
+            elif shp["kind"] in ("index", "iter"):
+                partial = "the loop at %s around %s does not visit every part (start %s, bound %s, early exits %s)" % (
+                    g.loc(j), inside[0][1].split("::")[-1], shp.get("start"), shp.get("bound"), [e[1] for e in shp["exits"]])
+            else:
+                unk(g, "loop around %s is neither an index loop nor an iterator loop over parts" % inside[0][1].split("::")[-1])
         good = False
-        why = "the partition function is not accumulated over all blocks in one full loop and applied in a second full loop"
-        if len(norm_calls) != 1 or len(cu_calls) != 1:
+        why = partial or "the partition function is not accumulated over all blocks in one full loop and applied in a second full loop"
+        if partial is None and not (ph1 and ph2) and len(norm_calls) == 1 and len(cu_calls) == 1:
+            unk(g, "computeUnnormalized()/normalize() are not called from loops over the parts (algorithm / helper form)")
+        if partial is not None:
+            pass
+        elif len(norm_calls) != 1 or len(cu_calls) != 1:
             why = "computeUnnormalized() / normalize() are not each called from exactly one place (%d / %d): a block is normalised twice or with a partial sum" % (len(cu_calls), len(norm_calls))
         elif ph1 and ph2 and ph1[0] != ph2[0]:
             h1, b1 = g.cfg.loop_blocks(ph1[0])
@@ -353,21 +373,24 @@ def body(chk, db, cfgname):
             f = db.fn(qn, nparams=npar)
             ctx = Ctx(f, db)
             site = "%s/%d" % (qn, npar)
-            good = False
-            for j, n in f.walk(f.body):
-                if n["k"] == "for":
-                    shp = loop_shape(f, ctx, j)
-                    if shp["kind"] == "iter" and shp["bound"] == fld(DM + "::parts") and not shp["exits"]:
-                        for jj, nn in f.walk(shp["body"]):
-                            if nn["k"] == "bin" and nn["op"] == "+=":
-                                rk = ctx.key(nn["r"], inline=False)
-                                want_args = tuple(("param", q["d"], q["n"]) for q in f.params)
-                                if rk[0] == "mcall" and rk[1] == qn.replace(DM, DMP) and rk[2] in (("op", "*", shp["var"]), ("un", "*", shp["var"])) and tuple(rk[3:]) == want_args and starts_zero_and_returned(f, ctx, jj):
-                                    good = True
-            if good:
+            so = sum_over(f, ctx, fld(DM + "::parts"))
+            if so["status"] == "unknown":
+                r3.unknown(site, f.loc(), "sum over the parts is written in a form that is not analysed: %s" % so["why"], cfgname)
+                continue
+            if so["status"] == "partial":
+                r3.bad(site, f.loc(so["node"]), "the average does not include every block: %s" % so["why"], cfgname)
+                continue
+            rk = ctx.key(so["term"], inline=False)
+            want_args = tuple(("param", q["d"], q["n"]) for q in f.params)
+            callee_ok = rk[0] == "mcall" and rk[1] == qn.replace(DM, DMP) and is_element(rk[2], so["loop"], fld(DM + "::parts")) and tuple(rk[3:]) == want_args
+            if callee_ok and so["zero"] and so["returned"] and not so["filtered"]:
                 r3.ok(site, f.loc(), "sum over all parts of the part's value at the same arguments", cfgname)
+            elif so["filtered"]:
+                r3.bad(site, f.loc(so["acc"]), "some blocks are skipped ('continue' inside the loop over the parts)", cfgname)
+            elif not callee_ok:
+                r3.bad(site, f.loc(so["acc"]), "the term added per block is %s, expected the part's %s at the same arguments" % (f.s(so["term"])[:70], qn.split("::")[-1]), cfgname)
             else:
-                r3.bad(site, f.loc(), "does not add the corresponding part average of every block (same arguments, from 0)", cfgname)
+                r3.bad(site, f.loc(so["acc"]), "the accumulator does not start at 0 / is not what is returned", cfgname)
 
     with r3.guard("r3:section", "(see detail)", cfgname):
         _sec_r3()
